@@ -19,6 +19,7 @@ static int         any_fail;      /* some API call returned its failure value */
 static uint64_t    outdig;        /* digest of every output buffer of successful read calls */
 static const char *cur_api = "";
 static const char *fault_api;     /* API call during which the injected fault first fired */
+static const char *fault_api2;    /* ... and the one during which the second fault of a pair fired */
 static char        first_fail_api[40];
 
 /* The calls of a workload up to and including its first Hclose / SDend are a workload of their own (the writing
@@ -33,6 +34,8 @@ api(const char *name)
 {
     if (vfs_fault.fired && !fault_api)
         fault_api = cur_api; /* fired during the previous call */
+    if (vfs_fault.fired2 && !fault_api2)
+        fault_api2 = cur_api;
     if (!phase_done && (!strcmp(cur_api, "Hclose") || !strcmp(cur_api, "SDend"))) {
         phase_done  = 1;
         phase_fail  = any_fail;
@@ -1026,6 +1029,7 @@ run_workload(int w)
     any_fail = 0;
     outdig   = MC_H0;
     cur_api  = "";
+    fault_api2 = NULL;
     phase_done = phase_fail = 0;
     phase_fired = 0;
     phase_hash  = 0;
@@ -1126,8 +1130,12 @@ run_plan(long idx, void *ctx)
         mc_outcome(mc_hash_i(mc_hash_i(MC_H0, p->w), 999));
         return;
     }
-    snprintf(sig, sizeof sig, "silent:%s:%s%s@%s", fault_api ? fault_api : "?", vfs_kind_name[p->kind], outdig != ref[p->w].outdig ? ":wrong-output" : ":wrong-file",
-             WL[p->w].name);
+    /* with two faults the later one decides what the outcome is named after */
+    if (p->k2 >= 0 && fault_api2)
+        snprintf(sig, sizeof sig, "silent:%s:second-of-two-faults%s@%s", fault_api2, outdig != ref[p->w].outdig ? ":wrong-output" : ":wrong-file", WL[p->w].name);
+    else
+        snprintf(sig, sizeof sig, "silent:%s:%s%s@%s", fault_api ? fault_api : "?", vfs_kind_name[p->kind], outdig != ref[p->w].outdig ? ":wrong-output" : ":wrong-file",
+                 WL[p->w].name);
     mc_violation(sig, "every API call including the close reported success, but %s differ from the fault-free run (fault fired during %s)",
                  outdig != ref[p->w].outdig ? "the data returned to the caller" : "the final file bytes", fault_api ? fault_api : "?");
 }
